@@ -109,13 +109,18 @@ def pretty_map(meta):
 
 def show_loops(goto):
     """[(loop id, function symbol, file, line)]"""
-    p = subprocess.run(["cbmc", "--show-loops", "--json-ui", goto], stdout=subprocess.PIPE,
-                       stderr=subprocess.DEVNULL, timeout=600)
     loops = []
-    try:
-        data = json.loads(p.stdout)
-    except Exception:
-        return loops
+    data = None
+    for _attempt in range(3):
+        p = subprocess.run(["cbmc", "--show-loops", "--json-ui", goto], stdout=subprocess.PIPE,
+                           stderr=subprocess.DEVNULL, timeout=900)
+        try:
+            data = json.loads(p.stdout)
+            break
+        except Exception:
+            time.sleep(2)
+    if data is None:
+        raise KaniError("cbmc --show-loops produced no parsable output")
     for item in data:
         for lp in item.get("loops", []) if isinstance(item, dict) else []:
             sl = lp.get("sourceLocation", {})
